@@ -42,8 +42,9 @@ structure Prec where
   ofOp : CmpOp → Nat
 
 def tokenNameOfOp : CmpOp → String
-  | .eq => "EQ" | .ne => "NE" | .lt => "LT" | .gt => "GT" | .le => "LE" | .ge => "GE" | .lg => "LG"
-  | .and => "AND" | .or => "OR" | .in_ => "IN" | .contains => "CONTAINS" | .re => "RE"
+  | .eq => "TOKEN_EQ" | .ne => "TOKEN_NE" | .lt => "TOKEN_LT" | .gt => "TOKEN_GT" | .le => "TOKEN_LE" | .ge => "TOKEN_GE"
+  | .lg => "TOKEN_LG" | .and => "TOKEN_AND" | .or => "TOKEN_OR" | .in_ => "TOKEN_IN" | .contains => "TOKEN_CONTAINS"
+  | .re => "TOKEN_RE"
 
 /-- the precedence table as the source declares it -/
 def precOfGenerated (consts : List (String × Nat)) (tbl : List (String × Nat)) : Prec :=
@@ -340,7 +341,7 @@ end
 
 /-- `Parser.parse` for one path: optional root identifier, segments, then end of input -/
 def parseQuery (pr : Prec) (toks : List Tok) : P Path :=
-  let fuel := 2 * toks.length + 2
+  let fuel := 4 * toks.length + 8
   match toks with
   | .root :: rest =>
     match parsePath pr fuel rest with
@@ -418,6 +419,32 @@ mutual
     | .self _ | .root _ _ | .ctx _ | .func _ _ => true
     | _ => false
 end
+
+/-! ## Side conditions on the translated tables -/
+
+def allOps : List CmpOp := [.eq, .ne, .lt, .gt, .le, .ge, .lg, .and, .or, .in_, .contains, .re]
+
+/-- What the round-trip proof needs of the parser's precedence table: `||` binds less tightly than
+    `&&`, which binds less tightly than every comparison / membership / match operator, and the prefix
+    operator binds more tightly than every binary operator; nothing is below the lowest level. -/
+def precOK (pr : Prec) : Bool :=
+  decide (pr.lowest ≤ pr.ofOp .or) && decide (pr.ofOp .or < pr.ofOp .and) &&
+  allOps.all (fun o => isLogical o || decide (pr.ofOp .and < pr.ofOp o)) &&
+  allOps.all (fun o => decide (pr.ofOp o < pr.prefix_)) &&
+  allOps.all (fun o => decide (pr.lowest ≤ pr.ofOp o))
+
+/-- the serializer's own precedence constants (filter.py) are the ones `ptoksCanon` hard-codes -/
+def serializerConstsOK (consts : List (String × Nat)) : Bool :=
+  consts.lookup "PRECEDENCE_LOWEST" == some 1 && consts.lookup "PRECEDENCE_LOGICAL_OR" == some 3 &&
+  consts.lookup "PRECEDENCE_LOGICAL_AND" == some 4 && consts.lookup "PRECEDENCE_PREFIX" == some 7
+
+/-- the operator spellings of the parser table are the ones the model's `CmpOp` stands for -/
+def binaryOperatorsOK (tbl : List (String × String)) : Bool :=
+  tbl.lookup "TOKEN_AND" == some "&&" && tbl.lookup "TOKEN_OR" == some "||" && tbl.lookup "TOKEN_EQ" == some "==" &&
+  tbl.lookup "TOKEN_NE" == some "!=" && tbl.lookup "TOKEN_LT" == some "<" && tbl.lookup "TOKEN_GT" == some ">" &&
+  tbl.lookup "TOKEN_LE" == some "<=" && tbl.lookup "TOKEN_GE" == some ">=" && tbl.lookup "TOKEN_LG" == some "<>" &&
+  tbl.lookup "TOKEN_IN" == some "in" && tbl.lookup "TOKEN_CONTAINS" == some "contains" && tbl.lookup "TOKEN_RE" == some "=~" &&
+  tbl.length == 12
 
 end Surface
 end JP
